@@ -79,7 +79,7 @@ MUTANTS = [
     M("c09-new-unwrap", ["C09"], (HRS, "            if let Ok(token) = HandRangeToken::from_str(h) {", "            if let Ok(token) = Ok::<HandRangeToken, ()>(HandRangeToken::from_str(h).unwrap()) {")),
     M("c09-probability-slice", ["C09"], (TK, '    if value.len() >= 1 && value.starts_with(":") {', '    if value.len() >= 1 {')),
     M("c09-range-unordered", ["C09"], (HRS, "for kicker_rank in RankRange::inclusive(high_rank, Rank::Deuce) {", "for kicker_rank in RankRange::inclusive(high_rank, high_rank.prev().unwrap_or(Rank::Deuce)) {")),
-    M("benign-c09-unanchored-end", ["C09"], (TK, 'Regex::new(r"^[AKQJT98765432]{2}(:[01](\\.[0-9]+)?)?$").unwrap();', 'Regex::new(r"^[AKQJT98765432]{2}(:[01](\\.[0-9]+)?)?").unwrap();'), benign=True),
+    M("benign-c09-unanchored-end", ["C09"], (TK, '(:(0(\\.[0-9]+)?|1(\\.0+)?))?$").unwrap();\n        let single_rank_pair_regex', '(:(0(\\.[0-9]+)?|1(\\.0+)?))?").unwrap();\n        let single_rank_pair_regex'), benign=True),
     M("benign-c09-is-char-boundary-free", ["C09"], (CD, "if v.len() == 2 && v.is_ascii() {", "if v.is_ascii() && v.len() == 2 {"), benign=True),
     M("c10-weight-wider", ["C10"], (TK, 'Regex::new(r"^[AKQJT98765432]{2}[so](:(0(\\.[0-9]+)?|1(\\.0+)?))?$").unwrap();', 'Regex::new(r"^[AKQJT98765432]{2}[so](:([01](\\.[0-9]+)?))?$").unwrap();')),
     M("c10-weight-two-digits", ["C10"], (TK, 'Regex::new(r"^[AKQJT98765432]{2}(:(0(\\.[0-9]+)?|1(\\.0+)?))?$").unwrap();', 'Regex::new(r"^[AKQJT98765432]{2}(:(0[0-9]?(\\.[0-9]+)?|1(\\.0+)?))?$").unwrap();')),
